@@ -1138,6 +1138,12 @@ class System:
             self.dae.gy += spmatrix(avals, aidx, aidx, self.dae.gy.size, 'd')
             self.dae.gy += spmatrix(vvals, vidx, vidx, self.dae.gy.size, 'd')
 
+            # cancel the a-v cross terms as the in-place branch does
+            avvals = [-self.dae.gy[int(i), int(j)] for i, j in zip(aidx, vidx)]
+            vavals = [-self.dae.gy[int(i), int(j)] for i, j in zip(vidx, aidx)]
+            self.dae.gy += spmatrix(avvals, aidx, vidx, self.dae.gy.size, 'd')
+            self.dae.gy += spmatrix(vavals, vidx, aidx, self.dae.gy.size, 'd')
+
     def store_sparse_pattern(self, models: OrderedDict):
         """
         Collect and store the sparsity pattern of Jacobian matrices.
